@@ -354,6 +354,9 @@ impl Ctx {
     fn add_violation(&self, sub: &str, sig: &str, replay_body: Value, detail: Value) {
         let dir = format!("{}/replays/{}", verif_root(), self.prop);
         let _ = std::fs::create_dir_all(&dir);
+        // a failure that needed more than the generated case alone (the case that ran before it on the same
+        // thread, say) names the complete reproduction itself
+        let replay_body = detail.get("replay_case").cloned().unwrap_or(replay_body);
         let body = json!({
             "property": self.prop,
             "sub": sub,
